@@ -176,7 +176,7 @@ func c14Exchanges(e *vh.Env, c c14Case) []c14Ex {
 		}
 	}
 	// statuses with and without body, HEAD
-	for _, st := range []int{200, 201, 202, 204, 206, 301, 302, 304, 400, 401, 404, 410, 500, 502, 503} {
+	for _, st := range []int{200, 201, 202, 204, 206, 301, 302, 304, 400, 401, 404, 410, 500, 502, 503, 599, 600, 799, 999} {
 		loc := [][2]string{}
 		if st >= 300 && st < 400 && st != 304 {
 			loc = [][2]string{{"Location", "/elsewhere"}}
